@@ -267,11 +267,13 @@ impl<SVC: Service> CloudServer<SVC> {
         // Create chains mapping forward (parent -> child) and backward (child -> parent), starting
         // at "latest".
         let mut rev_chain = HashMap::new();
+        let mut fwd_chain = HashMap::new();
         let mut iterations = versions.len() + 1; // For cycle detection.
         let latest = self.get_latest().await?;
         if let Some(mut c) = latest {
             while let Some(p) = parent_of(c) {
                 rev_chain.insert(c, p);
+                fwd_chain.insert(p, c);
                 c = p;
                 iterations -= 1;
                 if iterations == 0 {
@@ -305,11 +307,17 @@ impl<SVC: Service> CloudServer<SVC> {
             })
             .collect();
 
-        // Now, any pair not present in that chain can be deleted. However, another replica
-        // may be in the state where it has uploaded a version but not changed "latest" yet,
-        // so any pair with parent equal to latest is allowed to stay.
+        // Now, any pair that lost the race for its parent can be deleted: the parent is on the
+        // chain and the parent's child on the chain is a different version. Anything else stays.
+        // In particular another replica may have uploaded a version but not changed "latest"
+        // yet, and "latest" (read after the listing was made, possibly page by page) may already
+        // have moved past the listed versions; in both cases the parent has no child on the
+        // chain as seen here, so nothing that is or may become part of the chain is deleted.
         for (c, p, _) in versions {
-            if rev_chain.get(&c) != Some(&p) && Some(p) != latest {
+            if fwd_chain
+                .get(&p)
+                .is_some_and(|chain_child| *chain_child != c)
+            {
                 self.service.del(&Self::version_name(&p, &c)).await?;
             }
         }
